@@ -326,7 +326,7 @@ func init() {
 		return false
 	}
 	addCheck(&Check{Flows: []flowOracle{flowExactlyOnce(true)}, ID: "C03", Level: "exploration",
-		Rule:   "complete product of the decision-table features (Route shape x next-hop URI host/port/transport/lr x To host (no match, exact, wildcard, exact under a wildcard, second / third destination of a multi-destination entry) x static table x Request-URI class x keep-next-hop x arrival transport x service-name list (incl. a list without any @ whose pattern depends on the user, against three users on one host) x {first pass, spiral: a lower Via names the listener itself} x backends x history prelude {none, next hop learned, the same request received earlier through the other listener} x body {none, 2000 bytes}), each case on a fresh world started through the real startProxy, and a second pass in which all cases of one configuration are fed one after the other into ONE long-lived world (history independence of the decision); the oracle inspects the set of ALL packets and connection attempts the simulated network saw until quiescence; non-trivial = the request is not simply dropped",
+		Rule:   "complete product of the decision-table features (Route shape x next-hop URI host/port/transport/lr x To host (no match, exact, wildcard, exact under a wildcard, second / third destination of a multi-destination entry, a literal entry written with capitals) x static table x Request-URI class x keep-next-hop x arrival transport x service-name list (incl. a list without any @ whose pattern depends on the user, against three users on one host) x {first pass, spiral: a lower Via names the listener itself} x backends x history prelude {none, next hop learned, the same request received earlier through the other listener} x body {none, 2000 bytes}), each case on a fresh world started through the real startProxy, and a second pass in which all cases of one configuration are fed one after the other into ONE long-lived world (history independence of the decision); the oracle inspects the set of ALL packets and connection attempts the simulated network saw until quiescence; non-trivial = the request is not simply dropped",
 		Assume: []string{"service-name patterns are matched with Go's regexp in both the code and the reference (trusted)", "hosts are IPv4 literals or host-table names (stated domain)"},
 		Run: func(c *Ctx) {
 			c03Spec.Run(c)
